@@ -242,6 +242,9 @@ func golangPseudoFamily(r *RNG, s string) []string {
 		base + "-0." + tail[:14] + "-aaaaaaaaaaaa",
 		base + "-0." + tail[:14] + "-bbbbbbbbbbbb",
 		base + "-0." + tail[:14] + "-aaaaaaaaaaaa+incompatible",
+		// everything behind '+' is build metadata, whatever it looks like
+		base + "-rc1+m.0." + early + "-" + rev,
+		base + "-rc1+m.0." + late + "-" + rev,
 	}
 	return out
 }
